@@ -2,7 +2,7 @@
    facts about its ingredients.  Preservation is in Proof/MuxStep.v. *)
 From Coq Require Import List NArith Bool Lia Arith.
 From Coq Require Import Strings.Byte.
-From Coq Require Import ZifyBool ZifyN ZifyNat.
+
 From Mv Require Import Model.Mux.
 Import ListNotations.
 Local Open Scope N_scope.
@@ -139,96 +139,320 @@ Definition noacc (e : endpoint) (i : N) : Prop :=
   get i (incs e) = None /\ get i (wcs e) = None /\ get i (cls e) = None.
 
 Definition held (x : stream) : N := match rst x with RPost c => c | _ => 0 end.
-Definition rterms (o : option stream) : N :=
-  match o with Some x => len (rbuf x) + held x | None => 0 end.
-Definition swterm (o : option stream) : N :=
-  match o with Some x => sw x | None => 0 end.
 
-Definition closedp (o : option stream) : Prop :=
-  match o with None => True | Some y => cl y = CPosted end.
-Definition wgone (o : option stream) : Prop :=
-  match o with None => True | Some y => wst y = WGone end.
+(* what the invariant between the two endpoints sees of a stream *)
+Record view := {
+  v_sw : N; v_est : bool; v_rc : bool; v_rcw : bool;
+  v_wgone : bool;      (* write token out of circulation, close-write handed over or not due *)
+  v_posted : bool;     (* Stream.close has handed over (or skipped) its close message *)
+  v_pre : bool;        (* inbound stream not yet accepted locally *)
+  v_rt : N }.          (* bytes buffered + bytes consumed but not yet credited *)
 
 Definition pre_user (p : phase) : bool :=
   match p with PBacklog | PAccepting => true | _ => false end.
 
-(* per-endpoint well-formedness *)
-Record local_inv (s : side) (e : endpoint) : Prop := {
-  l_id : forall i x, get i (streams e) = Some x -> i <> 0;
-  l_posted : forall i x, get i (streams e) = Some x -> cl x = CPosted -> wst x = WGone /\ rst x = RGone;
-  l_rgone : forall i x, get i (streams e) = Some x -> rst x = RGone -> wst x = WGone /\ cl x <> CNo;
-  l_cl : forall i x, get i (streams e) = Some x -> cl x <> CNo -> ph x = PUser \/ ph x = PDead;
-  l_early : forall i x, get i (streams e) = Some x ->
-            (ph x = PBacklog \/ ph x = PAccepting \/ exists b, ph x = POpening b) ->
+Definition view_of (x : stream) : view :=
+  {| v_sw := sw x; v_est := est x; v_rc := rc x; v_rcw := rcw x;
+     v_wgone := match wst x with WGone => true | _ => false end;
+     v_posted := match cl x with CPosted => true | _ => false end;
+     v_pre := pre_user (ph x);
+     v_rt := len (rbuf x) + held x |}.
+
+Definition vw (e : endpoint) (i : N) : option view := option_map view_of (get i (streams e)).
+
+Definition rterms (o : option view) : N := match o with Some x => v_rt x | None => 0 end.
+Definition swterm (o : option view) : N := match o with Some x => v_sw x | None => 0 end.
+Definition closedp (o : option view) : Prop :=
+  match o with None => True | Some y => v_posted y = true end.
+Definition wgone (o : option view) : Prop :=
+  match o with None => True | Some y => v_wgone y = true end.
+
+(* per-stream and per-endpoint well-formedness *)
+Record sl_ok (s : side) (i : N) (x : stream) : Prop := {
+  l_id : i <> 0;
+  l_posted : cl x = CPosted -> wst x = WGone /\ rst x = RGone;
+  l_rgone : rst x = RGone -> wst x = WGone /\ cl x <> CNo;
+  l_cl : cl x <> CNo -> ph x = PUser \/ ph x = PDead;
+  l_early : (ph x = PBacklog \/ ph x = PAccepting \/ exists b, ph x = POpening b) ->
             wst x = WFree /\ rst x = RFree /\ cl x = CNo;
-  l_noest : forall i x, get i (streams e) = Some x -> est x = false ->
-            rbuf x = [] /\ held x = 0 /\ (mine s i = true -> sw x = 0);
-  l_user : forall i x, get i (streams e) = Some x -> ph x = PUser -> est x = true;
-  l_pre : forall i x, get i (streams e) = Some x -> pre_user (ph x) = true ->
-          est x = false /\ mine s i = false;
-  l_opening : forall i x b, get i (streams e) = Some x -> ph x = POpening b -> b = true /\ mine s i = true;
+  l_noest : est x = false -> rbuf x = [] /\ held x = 0 /\ (mine s i = true -> sw x = 0);
+  l_user : ph x = PUser -> est x = true;
+  l_pre : pre_user (ph x) = true -> est x = false /\ mine s i = false;
+  l_opening : forall b, ph x = POpening b -> b = true /\ mine s i = true
+}.
+
+Record local_inv (s : side) (e : endpoint) : Prop := {
+  l_streams : forall i x, get i (streams e) = Some x -> sl_ok s i x;
   l_backlog : forall i, In i (backlog e) -> exists x, get i (streams e) = Some x /\ ph x = PBacklog;
   l_nodup : NoDup (backlog e);
   l_cfg : cW (cfg e) <= maxU64
 }.
 
 (* one direction: sender S (endpoint eS), receiver R = other S (endpoint eR),
-   w the wire S -> R, w' the wire R -> S *)
+   w the wire S -> R, w' the wire R -> S.  [per_id] is everything said about
+   one stream identifier i. *)
+Record per_id (S : side) (eS eR : endpoint) (w w' : list msg) (i : N) : Prop := {
+  d_incpos : forall n, get i (incs eS) = Some n -> 0 < n;
+  (* identifiers S knows *)
+  d_ks : mine S i = true ->
+         (vw eS i <> None \/ ~ noacc eS i) -> i <= final_lg (largestIn eR) w /\ i <> 0;
+  d_kr : mine S i = false ->
+         (vw eS i <> None \/ ~ noacc eS i \/ has_any i w = true) -> i <= largestIn eS /\ i <> 0;
+  (* an open still in flight *)
+  d_openp : has_open i w = true ->
+            has_data i w = false /\ has_incr i w = false /\ has_cw i w = false /\
+            get i (incs eS) = None /\ get i (wcs eS) = None /\
+            (forall y, vw eS i = Some y -> v_est y = false /\ v_rc y = false /\ v_rcw y = false);
+  (* an accept still in flight *)
+  d_accp : has_accept i w = true ->
+           accept_first i w = true /\
+           (forall y, vw eS i = Some y -> v_est y = true) /\
+           (forall x, vw eR i = Some x -> v_est x = false /\ v_rc x = false);
+  (* close is the last word *)
+  d_lastc : close_last i w = true;
+  d_csent : (has_close i w = true \/ get i (cls eS) <> None) ->
+            get i (incs eS) = None /\ get i (wcs eS) = None /\ closedp (vw eS i);
+  d_conce : has_close i w = true -> get i (cls eS) = None;
+  d_rc : forall x, vw eR i = Some x -> v_rc x = true ->
+         has_any i w = false /\ noacc eS i /\ closedp (vw eS i);
+  (* close-write ends the data *)
+  d_cwlast : cw_last i w = true;
+  d_cwsent : (has_cw i w = true \/ get i (wcs eS) <> None) -> wgone (vw eS i);
+  d_cwonce : has_cw i w = true -> get i (wcs eS) = None;
+  d_rcw : forall x, vw eR i = Some x -> v_rcw x = true ->
+          has_data i w = false /\ has_cw i w = false /\ get i (wcs eS) = None /\ wgone (vw eS i);
+  (* streams S has not accepted yet: S has said nothing about them *)
+  d_pre : forall y, vw eS i = Some y -> v_pre y = true ->
+          has_any i w = false /\ noacc eS i /\
+          (forall x, vw eR i = Some x -> v_est x = false /\ v_rc x = false /\ v_rcw x = false);
+  (* S's own stream not established: only open and close were sent, nothing flows *)
+  d_zero : forall y, mine S i = true -> vw eS i = Some y -> v_est y = false ->
+           has_data i w = false /\ has_incr i w = false /\ has_cw i w = false /\
+           get i (incs eS) = None /\ get i (wcs eS) = None /\
+           rterms (vw eR i) = 0 /\ get i (incs eR) = None /\ has_incr i w' = false;
+  (* R's own stream not established: whoever talks about it accepted it first *)
+  d_estr : forall x, mine S i = false -> vw eR i = Some x -> v_est x = false ->
+           (has_data i w = true \/ has_cw i w = true \/ get i (wcs eS) <> None \/
+            (exists y, vw eS i = Some y /\ v_est y = true)) ->
+           has_accept i w = true;
+  (* S's own stream: the acceptor is established before S is *)
+  d_ests : forall x, mine S i = true -> vw eR i = Some x -> v_est x = false ->
+           has_data i w = false /\ (forall y, vw eS i = Some y -> v_est y = false);
+  (* window conservation for the data flowing S -> R *)
+  d_sum : swterm (vw eS i) + dataB i w + rterms (vw eR i)
+          + getN i (incs eR) + incB i w' <= cW (cfg eR)
+}.
+
 Record dir_inv (S : side) (eS eR : endpoint) (w w' : list msg) : Prop := {
   d_ids : ids_ok S (largestIn eR) w = true;
   d_next : nextOut eS <> 0 -> final_lg (largestIn eR) w < nextOut eS;
   d_vals : forallb (val_ok S (cW (cfg eS))) w = true;
-  d_incpos : forall i n, get i (incs eS) = Some n -> 0 < n;
-  (* identifiers S knows *)
-  d_ks : forall i, mine S i = true ->
-         (get i (streams eS) <> None \/ ~ noacc eS i) -> i <= final_lg (largestIn eR) w /\ i <> 0;
-  d_kr : forall i, mine S i = false ->
-         (get i (streams eS) <> None \/ ~ noacc eS i \/ has_any i w = true) -> i <= largestIn eS /\ i <> 0;
-  (* an open still in flight *)
-  d_openp : forall i, has_open i w = true ->
-            has_data i w = false /\ has_incr i w = false /\ has_cw i w = false /\
-            get i (incs eS) = None /\ get i (wcs eS) = None /\
-            (forall y, get i (streams eS) = Some y -> est y = false /\ rc y = false /\ rcw y = false);
-  (* an accept still in flight *)
-  d_accp : forall i, has_accept i w = true ->
-           accept_first i w = true /\
-           (forall y, get i (streams eS) = Some y -> est y = true) /\
-           (forall x, get i (streams eR) = Some x -> est x = false /\ rc x = false);
-  (* close is the last word *)
-  d_lastc : forall i, close_last i w = true;
-  d_csent : forall i, (has_close i w = true \/ get i (cls eS) <> None) ->
-            get i (incs eS) = None /\ get i (wcs eS) = None /\ closedp (get i (streams eS));
-  d_conce : forall i, has_close i w = true -> get i (cls eS) = None;
-  d_rc : forall i x, get i (streams eR) = Some x -> rc x = true ->
-         has_any i w = false /\ noacc eS i /\ closedp (get i (streams eS));
-  (* close-write ends the data *)
-  d_cwlast : forall i, cw_last i w = true;
-  d_cwsent : forall i, (has_cw i w = true \/ get i (wcs eS) <> None) -> wgone (get i (streams eS));
-  d_cwonce : forall i, has_cw i w = true -> get i (wcs eS) = None;
-  d_rcw : forall i x, get i (streams eR) = Some x -> rcw x = true ->
-          has_data i w = false /\ has_cw i w = false /\ get i (wcs eS) = None /\ wgone (get i (streams eS));
-  (* streams S has not accepted yet: S has said nothing about them *)
-  d_pre : forall i y, get i (streams eS) = Some y -> pre_user (ph y) = true ->
-          has_any i w = false /\ noacc eS i /\
-          (forall x, get i (streams eR) = Some x -> est x = false /\ rc x = false /\ rcw x = false);
-  (* S's own stream not established: only open and close were sent, nothing flows *)
-  d_zero : forall i y, mine S i = true -> get i (streams eS) = Some y -> est y = false ->
-           has_data i w = false /\ has_incr i w = false /\ has_cw i w = false /\
-           get i (incs eS) = None /\ get i (wcs eS) = None /\
-           rterms (get i (streams eR)) = 0 /\ get i (incs eR) = None /\ has_incr i w' = false;
-  (* R's own stream not established: whoever talks about it accepted it first *)
-  d_estr : forall i x, mine S i = false -> get i (streams eR) = Some x -> est x = false ->
-           (has_data i w = true \/ has_cw i w = true \/ get i (wcs eS) <> None \/
-            (exists y, get i (streams eS) = Some y /\ est y = true)) ->
-           has_accept i w = true;
-  (* S's own stream: the acceptor is established before S is *)
-  d_ests : forall i x, mine S i = true -> get i (streams eR) = Some x -> est x = false ->
-           has_data i w = false /\ (forall y, get i (streams eS) = Some y -> est y = false);
-  (* window conservation for the data flowing S -> R *)
-  d_sum : forall i, swterm (get i (streams eS)) + dataB i w + rterms (get i (streams eR))
-                    + getN i (incs eR) + incB i w' <= cW (cfg eR)
+  d_per : forall i, per_id S eS eR w w' i
 }.
 
 Definition Inv (st : state) : Prop :=
   forall s, dir_inv s (ep st s) (ep st (other s)) (wire_to st (other s)) (wire_to st s)
             /\ local_inv s (ep st s).
+
+(* everything the invariant reads of a wire about identifier i *)
+Definition wp (i : N) (w : list msg) :=
+  (has_any i w, has_open i w, has_accept i w, has_data i w, has_incr i w, has_cw i w,
+   has_close i w, dataB i w, incB i w, accept_first i w, close_last i w, cw_last i w).
+
+(* ---------------------------------------------------- facts about wires *)
+Lemma has_app (p : msg -> bool) w m : existsb p (w ++ [m]) = existsb p w || p m.
+Proof. rewrite existsb_app; cbn. now rewrite orb_false_r. Qed.
+
+Lemma dataB_app i w m : dataB i (w ++ [m]) = dataB i w + dataB i [m].
+Proof.
+  generalize [m] as l. intros l.
+  induction w as [|a t IH]; [cbn [app dataB]; lia|].
+  destruct a; cbn [app dataB]; rewrite ?IH; try lia.
+Qed.
+Lemma incB_app i w m : incB i (w ++ [m]) = incB i w + incB i [m].
+Proof.
+  generalize [m] as l. intros l.
+  induction w as [|a t IH]; [cbn [app incB]; lia|].
+  destruct a; cbn [app incB]; rewrite ?IH; try lia.
+Qed.
+
+Lemma final_lg_app lg w m : final_lg lg (w ++ [m]) = final_lg (final_lg lg w) [m].
+Proof.
+  generalize [m] as l; intros l.
+  revert lg; induction w as [|a t IH]; intros; cbn [app final_lg]; auto. destruct a; cbn [final_lg]; apply IH.
+Qed.
+
+Lemma ids_ok_app s lg w m :
+  ids_ok s lg (w ++ [m]) = ids_ok s lg w && ids_ok s (final_lg lg w) [m].
+Proof.
+  generalize [m] as l; intros l.
+  revert lg; induction w as [|a t IH]; intros lg.
+  - cbn [app ids_ok final_lg]. reflexivity.
+  - cbn [app]. destruct a; cbn [ids_ok final_lg mid]; rewrite ?IH; rewrite ?andb_assoc; reflexivity.
+Qed.
+
+Lemma ids_ok_mono s lg w : ids_ok s lg w = true -> lg <= final_lg lg w.
+Proof.
+  revert lg; induction w as [|a t IH]; intros lg H; cbn [final_lg]; [lia|].
+  destruct a; cbn [ids_ok mid] in H; try (apply IH; (now rewrite ?andb_true_iff in H; intuition)).
+  rewrite !andb_true_iff in H. destruct H as [[[_ _] Hl] Ht]. apply IH in Ht. apply N.ltb_lt in Hl. lia.
+Qed.
+
+Lemma is_id_cases i m :
+  is_id i m = is_open i m || is_accept i m || is_data i m || is_incr i m || is_cw i m || is_close i m.
+Proof. destruct m; cbn; rewrite ?orb_false_r; reflexivity. Qed.
+
+Lemma has_any_of (p : N -> msg -> bool) i w :
+  (forall m, p i m = true -> is_id i m = true) -> existsb (p i) w = true -> has_any i w = true.
+Proof.
+  intros Hp H. unfold has_any. apply existsb_exists in H as (m & Hin & Hm).
+  apply existsb_exists. exists m; auto.
+Qed.
+Lemma has_open_any i w : has_open i w = true -> has_any i w = true.
+Proof. apply (has_any_of is_open). intros m; destruct m; cbn; auto; discriminate. Qed.
+Lemma has_accept_any i w : has_accept i w = true -> has_any i w = true.
+Proof. apply (has_any_of is_accept). intros m; destruct m; cbn; auto; discriminate. Qed.
+Lemma has_data_any i w : has_data i w = true -> has_any i w = true.
+Proof. apply (has_any_of is_data). intros m; destruct m; cbn; auto; discriminate. Qed.
+Lemma has_incr_any i w : has_incr i w = true -> has_any i w = true.
+Proof. apply (has_any_of is_incr). intros m; destruct m; cbn; auto; discriminate. Qed.
+Lemma has_cw_any i w : has_cw i w = true -> has_any i w = true.
+Proof. apply (has_any_of is_cw). intros m; destruct m; cbn; auto; discriminate. Qed.
+Lemma has_close_any i w : has_close i w = true -> has_any i w = true.
+Proof. apply (has_any_of is_close). intros m; destruct m; cbn; auto; discriminate. Qed.
+
+Lemma no_any i w :
+  has_any i w = false ->
+  has_open i w = false /\ has_accept i w = false /\ has_data i w = false /\
+  has_incr i w = false /\ has_cw i w = false /\ has_close i w = false.
+Proof.
+  intros H. repeat split; apply not_true_is_false; intros C;
+  [apply has_open_any in C|apply has_accept_any in C|apply has_data_any in C
+  |apply has_incr_any in C|apply has_cw_any in C|apply has_close_any in C]; congruence.
+Qed.
+
+(* every identifier of the sender's parity on the wire is at most final_lg *)
+Lemma ids_ok_bound s lg w i :
+  ids_ok s lg w = true -> has_any i w = true -> mine s i = true -> i <= final_lg lg w.
+Proof.
+  revert lg; induction w as [|a t IH]; intros lg H Ha Hm; [discriminate|].
+  cbn [has_any existsb] in Ha. apply orb_true_iff in Ha.
+  destruct a; cbn [ids_ok mid final_lg] in *; rewrite ?andb_true_iff in H;
+    try (destruct Ha as [Ha|Ha];
+         [ unfold is_id in Ha; cbn [mid] in Ha; apply N.eqb_eq in Ha; subst;
+           destruct H as [[_ H1] H2]; rewrite Hm in H1; cbn in H1; apply N.leb_le in H1;
+           apply ids_ok_mono in H2; lia
+         | apply IH; intuition ]).
+  - (* open *)
+    destruct H as [[[_ _] Hl] Ht]. apply N.ltb_lt in Hl. destruct Ha as [Ha|Ha].
+    + unfold is_id in Ha; cbn [mid] in Ha; apply N.eqb_eq in Ha; subst.
+      apply ids_ok_mono in Ht. lia.
+    + apply IH; auto.
+  - (* heartbeat *)
+    destruct Ha as [Ha|Ha]; [discriminate|]. apply IH; auto.
+Qed.
+
+Lemma ids_ok_nz s lg w i : ids_ok s lg w = true -> has_any i w = true -> i <> 0.
+Proof.
+  revert lg; induction w as [|a t IH]; intros lg H Ha; [discriminate|].
+  cbn [has_any existsb] in Ha. apply orb_true_iff in Ha.
+  destruct a; cbn [ids_ok mid] in H; rewrite ?andb_true_iff in H;
+    (destruct Ha as [Ha|Ha];
+     [ unfold is_id in Ha; cbn [mid] in Ha; try discriminate; apply N.eqb_eq in Ha; subst;
+       intuition; match goal with X : negb _ = true |- _ => apply negb_true_iff, N.eqb_neq in X; congruence end
+     | eapply IH; [|exact Ha]; intuition eauto ]).
+Qed.
+
+Lemma accept_first_app i w m :
+  accept_first i (w ++ [m]) = accept_first i w && (negb (has_any i w) || negb (is_accept i m)).
+Proof.
+  induction w as [|a t IH]; cbn [app accept_first has_any existsb].
+  - destruct (is_id i m); cbn; auto.
+  - destruct (is_id i a) eqn:E; cbn [orb negb].
+    + unfold has_accept. rewrite has_app. rewrite negb_orb. reflexivity.
+    + rewrite IH. reflexivity.
+Qed.
+
+Lemma close_last_app i w m :
+  close_last i (w ++ [m]) = close_last i w && (negb (has_close i w) || negb (is_id i m)).
+Proof.
+  induction w as [|a t IH].
+  - cbn. destruct (is_close i m); cbn; auto.
+  - cbn [app close_last]. unfold has_close in *. cbn [existsb].
+    destruct (is_close i a) eqn:E.
+    + unfold has_any. rewrite has_app, negb_orb. cbn. reflexivity.
+    + rewrite IH. cbn. reflexivity.
+Qed.
+
+Lemma cw_last_app i w m :
+  cw_last i (w ++ [m]) =
+  cw_last i w && (negb (has_cw i w) || (negb (is_data i m) && negb (is_cw i m))).
+Proof.
+  induction w as [|a t IH].
+  - cbn. destruct (is_cw i m); cbn; auto.
+  - cbn [app cw_last]. unfold has_cw in *. cbn [existsb].
+    destruct (is_cw i a) eqn:E.
+    + unfold has_data. rewrite !has_app, !negb_orb. cbn.
+      destruct (existsb (is_data i) t), (existsb (is_cw i) t), (is_data i m), (is_cw i m); reflexivity.
+    + rewrite IH. cbn. reflexivity.
+Qed.
+
+(* ------------------------------------------------- views under map updates *)
+Lemma vw_put e j x i :
+  vw (put_stream j x e) i = if N.eqb i j then Some (view_of x) else vw e i.
+Proof.
+  unfold vw, put_stream; cbn [streams set_streams]. destruct (N.eqb i j) eqn:E.
+  - apply N.eqb_eq in E; subst. now rewrite get_set_eq.
+  - apply N.eqb_neq in E. now rewrite get_set_ne.
+Qed.
+
+Lemma vw_some e i y : vw e i = Some y -> exists x, get i (streams e) = Some x /\ y = view_of x.
+Proof. unfold vw. destruct (get i (streams e)); cbn; intros H; inversion H; eauto. Qed.
+Lemma vw_of e i x : get i (streams e) = Some x -> vw e i = Some (view_of x).
+Proof. unfold vw. now intros ->. Qed.
+Lemma vw_none e i : get i (streams e) = None -> vw e i = None.
+Proof. unfold vw. now intros ->. Qed.
+
+Lemma mine_other s i : mine (other s) i = negb (mine s i).
+Proof. destruct s; unfold mine; cbn; destruct (N.even i); reflexivity. Qed.
+Lemma other_other s : other (other s) = s.
+Proof. now destruct s. Qed.
+
+(* messages about other identifiers do not change the projection *)
+Lemma is_id_false i m :
+  is_id i m = false ->
+  is_open i m = false /\ is_accept i m = false /\ is_data i m = false /\
+  is_incr i m = false /\ is_cw i m = false /\ is_close i m = false.
+Proof. rewrite is_id_cases, !orb_false_iff. tauto. Qed.
+
+Lemma wp_app_other i w m : is_id i m = false -> wp i (w ++ [m]) = wp i w.
+Proof.
+  intros H. pose proof (is_id_false _ _ H) as (H1 & H2 & H3 & H4 & H5 & H6).
+  unfold wp, has_any, has_open, has_accept, has_data, has_incr, has_cw, has_close.
+  rewrite !has_app, dataB_app, incB_app, accept_first_app, close_last_app, cw_last_app.
+  rewrite H, H1, H2, H3, H4, H5, H6, !orb_false_r, !andb_true_r.
+  cbn [negb andb orb]. rewrite !orb_true_r, !andb_true_r.
+  assert (dataB i [m] = 0) as ->.
+  { destruct m; cbn in *; try reflexivity. now rewrite H3. }
+  assert (incB i [m] = 0) as ->.
+  { destruct m; cbn in *; try reflexivity. now rewrite H4. }
+  rewrite !N.add_0_r. reflexivity.
+Qed.
+
+Lemma wp_cons_other i w m : is_id i m = false -> wp i (m :: w) = wp i w.
+Proof.
+  intros H. pose proof (is_id_false _ _ H) as (H1 & H2 & H3 & H4 & H5 & H6).
+  unfold wp, has_any, has_open, has_accept, has_data, has_incr, has_cw, has_close.
+  cbn [existsb accept_first close_last cw_last].
+  rewrite H, H1, H2, H3, H4, H5, H6. cbn [orb].
+  assert (dataB i (m :: w) = dataB i w) as ->.
+  { destruct m; cbn in *; try reflexivity. now rewrite H3. }
+  assert (incB i (m :: w) = incB i w) as ->.
+  { destruct m; cbn in *; try reflexivity. now rewrite H4. }
+  reflexivity.
+Qed.
+
+Lemma is_id_ne i j m : mid m = Some j -> i <> j -> is_id i m = false.
+Proof. unfold is_id; intros -> H. now apply N.eqb_neq. Qed.
+Lemma is_id_hb i : is_id i MHeartbeat = false.
+Proof. reflexivity. Qed.
